@@ -89,7 +89,20 @@ func evmKeys(label string, n int) ([]*ecdsa.PrivateKey, []ecommon.Address) {
 // baseTime is well in the past and fixed (header verification of several routers compares with the wall clock).
 const baseTime = uint64(1600000000)
 
+// hOff: the height offset of a genesis variant.  g1 and g2 are two different roots at the SAME height; ghi is a third root
+// 50 blocks higher (above anything the sync steps reach), so that later-install attempts are made at an equal height, at a
+// height above the synced tip (g1 then ghi) and at a lower height (ghi then g1).
+func hOff(v string) uint64 {
+	if v == "ghi" {
+		return 50
+	}
+	return 0
+}
+
 func vnum(v string) uint64 {
+	if v == "ghi" {
+		return 3
+	}
 	if v == "g2" {
 		return 2
 	}
@@ -136,33 +149,33 @@ func allRouters() []*routerFx {
 	add(&routerFx{name: "bytom", router: utils.BYTOM_ROUTER, chainID: 22, extra: mustJSON(&bytom.ExtraInfo{ChainID: evmChainID}),
 		genesis: func(v string) []byte {
 			_, addrs := evmKeys("bytom/"+v, 3)
-			g := gethHeader(200, v, posaExtra(addrs), addrs[200%3])
+			g := gethHeader(200+2*hOff(v), v, posaExtra(addrs), addrs[(200+2*hOff(v))%3])
 			return mustJSON(&bytom.GenesisHeader{Header: *g, PrevValidators: []bytom.HeightAndValidators{{Height: big.NewInt(0), Validators: addrs}}})
 		}})
 	// ---- heco, hsc, pixie: poly's eth.Header
 	add(&routerFx{name: "heco", router: utils.HECO_ROUTER, chainID: 7, extra: mustJSON(&heco.ExtraInfo{ChainID: evmChainID, Period: 3}),
 		genesis: func(v string) []byte {
 			_, addrs := evmKeys("heco/"+v, 3)
-			g := polyEthHeader(200, v, posaExtra(addrs), addrs[0], 2)
+			g := polyEthHeader(200+2*hOff(v), v, posaExtra(addrs), addrs[0], 2)
 			return mustJSON(&heco.GenesisHeader{Header: *g, PrevValidators: []heco.HeightAndValidators{{Height: big.NewInt(0), Validators: addrs}}})
 		}})
 	add(&routerFx{name: "hsc", router: utils.HSC_ROUTER, chainID: 20, extra: mustJSON(&hsc.ExtraInfo{ChainID: evmChainID, Period: 3}),
 		genesis: func(v string) []byte {
 			_, addrs := evmKeys("hsc/"+v, 3)
-			g := polyEthHeader(200, v, posaExtra(addrs), addrs[0], 2)
+			g := polyEthHeader(200+2*hOff(v), v, posaExtra(addrs), addrs[0], 2)
 			return mustJSON(&hsc.GenesisHeader{Header: *g, PrevValidators: []hsc.HeightAndValidators{{Height: big.NewInt(0), Validators: addrs}}})
 		}})
 	add(&routerFx{name: "pixie", router: utils.PIXIECHAIN_ROUTER, chainID: 19, extra: mustJSON(&pixiechain.ExtraInfo{ChainID: evmChainID, Period: 3}),
 		genesis: func(v string) []byte {
 			_, addrs := evmKeys("pixie/"+v, 3)
-			g := polyEthHeader(200, v, posaExtra(addrs), addrs[0], 2)
+			g := polyEthHeader(200+2*hOff(v), v, posaExtra(addrs), addrs[0], 2)
 			return mustJSON(&pixiechain.GenesisHeader{Header: *g, PrevValidators: []pixiechain.HeightAndValidators{{Height: big.NewInt(0), Validators: addrs}}})
 		}})
 	// ---- msc: epoch header (number % epoch == 0), go-ethereum header
 	add(&routerFx{name: "msc", router: utils.MSC_ROUTER, chainID: 10, extra: mustJSON(&msc.ExtraInfo{ChainID: evmChainID, Period: 3, Epoch: 100}),
 		genesis: func(v string) []byte {
 			_, addrs := evmKeys("msc/"+v, 3)
-			return mustJSON(gethHeader(200, v, posaExtra(addrs), addrs[0]))
+			return mustJSON(gethHeader(200+2*hOff(v), v, posaExtra(addrs), addrs[0]))
 		}})
 	// ---- polygon bor: header + validator-set snapshot
 	add(&routerFx{name: "bor", router: utils.POLYGON_BOR_ROUTER, chainID: 16,
@@ -173,7 +186,7 @@ func allRouters() []*routerFx {
 			for i, a := range addrs {
 				vals = append(vals, &polygon.Validator{ID: uint64(i + 1), Address: a, VotingPower: 10})
 			}
-			g := polyEthHeader(255, v, posaExtra(addrs), ecommon.Address{}, 3)
+			g := polyEthHeader(255+hOff(v), v, posaExtra(addrs), ecommon.Address{}, 3)
 			snap := &polygon.Snapshot{Hash: g.Hash(), ValidatorSet: polygon.NewValidatorSet(vals)}
 			return mustJSON(&polygon.HeaderWithOptionalSnap{Header: *g, Snapshot: snap})
 		}})
@@ -189,7 +202,7 @@ func allRouters() []*routerFx {
 		return b
 	}})
 	add(&routerFx{name: "okex", router: utils.OKEX_ROUTER, chainID: 12, genesis: func(v string) []byte {
-		hdr := tmtypes.Header{ChainID: "verif-okex", Height: int64(100 * vnum(v)), Time: time.Unix(int64(baseTime), 0).UTC(),
+		hdr := tmtypes.Header{ChainID: "verif-okex", Height: int64(100 + hOff(v)), Time: time.Unix(int64(baseTime), 0).UTC(),
 			ValidatorsHash: newDet("okex/vh/" + v).Bytes(32), NextValidatorsHash: newDet("okex/nvh/" + v).Bytes(32)}
 		hdr.Version.Block = 10
 		b, err := okex.NewCDC().MarshalBinaryBare(&okex.CosmosHeader{Header: hdr, Commit: &tmtypes.Commit{}, Valsets: nil})
@@ -199,7 +212,7 @@ func allRouters() []*routerFx {
 		return b
 	}})
 	add(&routerFx{name: "heimdall", router: utils.POLYGON_HEIMDALL_ROUTER, chainID: 15, genesis: func(v string) []byte {
-		hdr := polygonTypes.Header{ChainID: "verif-heimdall", Height: int64(100 * vnum(v)), Time: time.Unix(int64(baseTime), 0).UTC(),
+		hdr := polygonTypes.Header{ChainID: "verif-heimdall", Height: int64(100 + hOff(v)), Time: time.Unix(int64(baseTime), 0).UTC(),
 			ValidatorsHash: newDet("heimdall/vh/" + v).Bytes(32), NextValidatorsHash: newDet("heimdall/nvh/" + v).Bytes(32)}
 		b, err := polygonTypes.NewCDC().MarshalBinaryBare(&polygon.CosmosHeader{Header: hdr, Commit: &polygonTypes.Commit{}, Valsets: nil})
 		if err != nil {
@@ -214,7 +227,7 @@ func allRouters() []*routerFx {
 			cfg.Peers = append(cfg.Peers, &vconfig.PeerConfig{Index: uint32(i + 1), ID: vconfig.PubkeyID(a.PublicKey)})
 		}
 		payload := mustJSON(&vconfig.VbftBlockInfo{NewChainConfig: cfg})
-		h := &otypes.Header{Height: 0, Timestamp: uint32(baseTime), ConsensusPayload: payload}
+		h := &otypes.Header{Height: uint32(hOff(v)), Timestamp: uint32(baseTime), ConsensusPayload: payload}
 		sink := ocommon.NewZeroCopySink(nil)
 		h.Serialization(sink)
 		return sink.Bytes()
@@ -225,7 +238,7 @@ func allRouters() []*routerFx {
 		if err != nil {
 			panic(err)
 		}
-		h := &neo.NeoBlockHeader{BlockHeader: &nblock.BlockHeader{Version: 0, Timestamp: uint32(baseTime), Index: uint32(vnum(v)) - 1, NextConsensus: nc,
+		h := &neo.NeoBlockHeader{BlockHeader: &nblock.BlockHeader{Version: 0, Timestamp: uint32(baseTime), Index: uint32(5 + hOff(v)), NextConsensus: nc,
 			ConsensusData: 7, Witness: &ntx.Witness{InvocationScript: []byte{0}, VerificationScript: []byte{81}}}}
 		sink := common.NewZeroCopySink(nil)
 		if err := h.Serialization(sink); err != nil {
@@ -239,7 +252,7 @@ func allRouters() []*routerFx {
 		h.SetPrevHash(n3helper.UInt256Zero)
 		h.SetMerkleRoot(n3helper.UInt256Zero)
 		h.SetTimeStamp(baseTime * 1000)
-		h.SetIndex(uint32(vnum(v)) - 1)
+		h.SetIndex(uint32(5 + hOff(v)))
 		h.SetPrimaryIndex(0)
 		h.SetNextConsensus(n3helper.UInt160FromBytes(newDet("neo3/nc/" + v).Bytes(20)))
 		h.SetWitnesses([]n3tx.Witness{{InvocationScript: []byte{}, VerificationScript: []byte{0x11}}})
@@ -255,7 +268,7 @@ func allRouters() []*routerFx {
 		h.SetPrevHash(n3lhelper.UInt256Zero)
 		h.SetMerkleRoot(n3lhelper.UInt256Zero)
 		h.SetTimeStamp(baseTime * 1000)
-		h.SetIndex(uint32(vnum(v)) - 1)
+		h.SetIndex(uint32(5 + hOff(v)))
 		h.SetPrimaryIndex(0)
 		h.SetNextConsensus(n3lhelper.UInt160FromBytes(newDet("neo3l/nc/" + v).Bytes(20)))
 		h.SetWitnesses([]n3ltx.Witness{{InvocationScript: []byte{}, VerificationScript: []byte{0x11}}})
@@ -272,7 +285,7 @@ func allRouters() []*routerFx {
 		if err != nil {
 			panic(err)
 		}
-		g := gethHeader(100*vnum(v), v, append(make([]byte, quorum.IstanbulExtraVanity), ist...), ecommon.Address{})
+		g := gethHeader(100+hOff(v), v, append(make([]byte, quorum.IstanbulExtraVanity), ist...), ecommon.Address{})
 		g.MixDigest = quorum.IstanbulDigest
 		return mustJSON(g)
 	}})
@@ -287,7 +300,7 @@ func allRouters() []*routerFx {
 			panic(err)
 		}
 		var ht [4]byte
-		binary.BigEndian.PutUint32(ht[:], uint32(2016*vnum(v)))
+		binary.BigEndian.PutUint32(ht[:], uint32(2016+hOff(v)))
 		return append(buf.Bytes(), ht[:]...)
 	}})
 	// ---- zilliqa / zilliqalegacy: recorded tx block + ds block + committee (repository test data); g2 drops one
@@ -314,6 +327,12 @@ func allRouters() []*routerFx {
 			bh := tx["BlockHash"].([]interface{})
 			bh[0] = json.Number("57")
 		}
+		if v == "ghi" {
+			comm = comm[2:]
+			bh := tx["BlockHash"].([]interface{})
+			bh[0] = json.Number("58")
+			tx["BlockHeader"].(map[string]interface{})["BlockNum"] = json.Number("51")
+		}
 		var nodes []map[string]interface{}
 		for _, pk := range comm {
 			nodes = append(nodes, map[string]interface{}{"PubKey": pk})
@@ -331,6 +350,13 @@ func allRouters() []*routerFx {
 			s = strings.Replace(s, `"state_root": "0x61125a3a`, `"state_root": "0x71125a3a`, 1)
 			if !strings.Contains(s, `"state_root": "0x71125a3a`) {
 				panic("starcoin fixture: state_root not found")
+			}
+		}
+		if v == "ghi" {
+			s = strings.Replace(s, `"state_root": "0x61125a3a`, `"state_root": "0x81125a3a`, 1)
+			s = strings.Replace(s, `"number": "0"`, `"number": "50"`, 1)
+			if !strings.Contains(s, `"number": "50"`) || !strings.Contains(s, `0x81125a3a`) {
+				panic("starcoin fixture: number/state_root not found")
 			}
 		}
 		return []byte(s)
